@@ -94,7 +94,14 @@ pub fn effective_amp(c: &TrioConfig, height: u64) -> u64 {
 }
 
 pub fn trio_provide(w: &mut World, t: &TrioH, user: &str, d: [u128; 3], slippage: Option<Decimal>) -> TxResult {
-    let assets = [asset(&t.assets[0], d[0]), asset(&t.assets[1], d[1]), asset(&t.assets[2], d[2])];
+    trio_provide_ordered(w, t, user, d, slippage, false)
+}
+/// `d` is in the pool's asset order; with `rotated` the message lists the assets as [1], [2], [0]
+pub fn trio_provide_ordered(w: &mut World, t: &TrioH, user: &str, d: [u128; 3], slippage: Option<Decimal>, rotated: bool) -> TxResult {
+    let mut assets = [asset(&t.assets[0], d[0]), asset(&t.assets[1], d[1]), asset(&t.assets[2], d[2])];
+    if rotated {
+        assets.rotate_left(1);
+    }
     for (i, a) in t.assets.iter().enumerate() {
         if let AssetInfo::Token { contract_addr } = a {
             if d[i] > 0 {
@@ -169,7 +176,7 @@ impl TrioScn {
 
 fn shape3(shape: &str, r: [u128; 3]) -> [u128; 3] {
     let m = |x: u128| x.max(1);
-    match shape {
+    match shape.trim_end_matches("@rot") {
         "prop1" => [m(r[0] / 100), m(r[1] / 100), m(r[2] / 100)],
         "prop100" => [m(r[0]), m(r[1]), m(r[2])],
         "single" => [m(r[0] / 10), 1, 1],
@@ -275,7 +282,8 @@ impl Scenario for TrioScn {
                 v.push(TAct::Swap { user: BOB.to_string(), from: 0, to: 2, amount: (res[0] / 100).max(2).to_string() });
                 v.push(TAct::Swap { user: CAROL.to_string(), from: 2, to: 1, amount: (res[2] / 100).max(2).to_string() });
             }
-            let shapes: &[&str] = if c07 { &["prop1"] } else { &["prop1", "prop100", "single", "single2", "ones"] };
+            // "@rot": the same amounts with the assets listed in rotated order in the message
+            let shapes: &[&str] = if c07 { &["prop1"] } else { &["prop1", "prop100", "single", "single2", "single@rot", "ones"] };
             for s in shapes {
                 v.push(TAct::Provide { user: ALICE.to_string(), shape: s.to_string() });
             }
@@ -330,7 +338,7 @@ impl Scenario for TrioScn {
                 let (res, supply) = pre.unwrap();
                 let d = shape3(shape, res);
                 let lpb = w.cw20_balance(&t.lp, user);
-                match trio_provide(w, t, user, d, None) {
+                match trio_provide_ordered(w, t, user, d, None, shape.ends_with("@rot")) {
                     Ok(_) => {
                         cx.count("provide:ok");
                         let minted = w.cw20_balance(&t.lp, user) - lpb;
